@@ -121,7 +121,10 @@ class C03(Prop):
             n_clients = 2 if case["mode"] == "dual" else 1
             case = dict(case, clients=[{"type": r.choice([1, 2]), "steps": None} for _ in range(n_clients)])
             for c in case["clients"]:
-                c["steps"] = self._random_steps(r, c["type"], r.randrange(3, 21) if n_clients == 1 else r.randrange(2, 9))
+                n_steps = r.randrange(3, 21) if n_clients == 1 else r.randrange(2, 9)
+                if n_clients == 1 and r.random() < 0.01:
+                    n_steps = 260      # a long-lived connection: counters, buffers and tables inside the client get time to fill up
+                c["steps"] = self._random_steps(r, c["type"], n_steps)
         ids = set()
         for c in case["clients"]:
             while True:
